@@ -44,7 +44,7 @@ def yaml_splicer_files(ctx):
                 ast.unparse(c.func) == "splicer.get_splicers" and len(c.args) == 2 and ast.unparse(c.args[1]) == store for c in calls)
     ctx.item("C12/S1/main_with_args:yaml-splicer-files-by-key", ok,
              "files listed under `splicer: <key>:` must be read into splicers[<key>] whatever their names: " + why,
-             confirm=lambda: ctx.monitor("m_splicer_e2e", "search", 25, ctx.seed))
+             confirm=lambda: ctx.monitor("m_splicer_e2e", "search", 25, ctx.seed), shape=True)
 
 
 def run(ctx):
